@@ -550,6 +550,20 @@ def check_binom(ctx):
     problems = []
     loops = [s for s in f.body if isinstance(s, ast.For)]
     if len(loops) != 1:
+        # not the n-fold Bernoulli count.  Another exact algorithm cannot be decided here - with one exception that is wrong for every
+        # implementation: a probability mass computed as a power whose exponent is the molecule count (the start value q**n of an
+        # inversion sampler) underflows to 0 for counts beyond ~745/|log q|, and nothing in the function bounds the count
+        counts = {a[0]} | {t_ for t_, vs_ in asg.items() if any(a[0] in {x_.id for x_ in ast.walk(v_) if isinstance(x_, ast.Name)} for v_ in vs_)}
+        pows = [n_ for n_ in ast.walk(f) if (isinstance(n_, ast.BinOp) and isinstance(n_.op, ast.Pow) and isinstance(n_.right, ast.Name) and n_.right.id in counts)
+                or (isinstance(n_, ast.Call) and src(n_.func).split('.')[-1] == 'pow' and len(n_.args) == 2 and isinstance(n_.args[1], ast.Name) and n_.args[1].id in counts)]
+        bounded = any(isinstance(c_, ast.Compare) and isinstance(c_.left, ast.Name) and c_.left.id in counts and
+                      any(util.const_num(x_) is not None and util.const_num(x_) > 1 for x_ in c_.comparators) for c_ in ast.walk(f))
+        if pows and not bounded:
+            ctx.ob('R19.2-binomial', 'binom_rnd_f', False, ctx.loc('random', pows[0]),
+                   'binom_rnd_f(N, p) is a Binomial(round(N), p) draw for every count N',
+                   '`%s`: a probability computed as a power of the molecule count underflows to 0 for large counts (no bound on the count in the '
+                   'function): the draw degenerates - all molecules go to one daughter' % src(pows[0]))
+            return
         raise AnalysisError('binom_rnd_f: draw loop not found')
     lp = loops[0]
     bound = src(lp.iter).replace(' ', '')[len('range('):-1]
